@@ -60,7 +60,9 @@ META = dict(
     tie_theorems=[],
     rule='case = (crystal, Nthermo): crystals are the named zoo (FCC, BCC, HCP, SC, diamond, B2, 2-D square / triangular / '
          'honeycomb, rumpled and rect2d two-site cells with a site vector basis, triclinic, oblique, monoclinic, '
-         'rhombohedral, orthorhombic) plus random members of lattice families with random parameters; Nthermo 1..2 quick, '
+         'rhombohedral, orthorhombic), rigidly rotated copies of them (lattice -> Q.lattice, tilts 1e-3 .. 1 deg and generic '
+         'angles about several axes: float oracles + rotation covariance of the span of the vector stars), plus random '
+         'members of lattice families with random parameters; Nthermo 1..2 quick, '
          '1..3 thorough; random class rates per case. Every case runs the direct oracles and the projection comparison; '
          'the small ones also go through the Lean checker and the exact model expansions. Non-trivial = at least two '
          'vector stars and a non-trivial group or a multi-site basis; distinct by (lattice, basis, cutoff, Nthermo).',
@@ -70,7 +72,7 @@ META = dict(
     assumptions=['Green-function class values used for the comparison are symmetric under exchange of the end points '
                  '(G(s,t) = G(t,s)), as for the symmetrised generator; the code copies the upper triangle',
                  'tolerances: 1e-8 for the direct oracles on float output, 1e-10*scale for the projection comparison, '
-                 '1e-9 in the exact checker'],
+                 '1e-9 in the exact checker; array entries may be off by the 1e-8 of zeroclean'],
 )
 
 DRIVER = 'Drive/C25.lean'
@@ -293,7 +295,7 @@ def compare_lean(c, answers, expect_oracle_sigs):
 # ---------------------------------------------------------------- one case (worker process)
 def _build(task):
     from . import _c25_impl as I
-    if task['kind'] == 'zoo':
+    if task['kind'] in ('zoo', 'rot'):
         crys, chem, cut = I.zoo()[task['name']]
     else:
         fam, crys, chem, cut = I.random_crystal(random.Random(task['cseed']))
@@ -309,6 +311,13 @@ def _job(task):
     res = dict(task=task, records=[], lean=None, err=None)
     try:
         crys, chem, cut = _build(task)
+        base = None
+        if task['kind'] == 'rot':
+            # rigidly rotated copy (lattice -> Q.lattice): everything must be the rotated image of the unrotated result
+            Q = I.rotation(crys.dim, task['axis'], task['deg'])
+            c0 = I.light_calculator(crys, chem, cut, task['N'])
+            base = (c0.kinetic, c0.vkinetic)
+            crys = I.rotated_crystal(crys, Q)
         c = I.light_calculator(crys, chem, cut, task['N'])
         ss, vk = c.kinetic, c.vkinetic
         res['info'] = dict(name=task['name'], N=task['N'], dim=crys.dim, G=len(list(crys.G)), states=ss.Nstates, stars=ss.Nstars,
@@ -317,6 +326,9 @@ def _job(task):
                            lattice=np.asarray(crys.lattice).tolist(), basis=[np.asarray(u).tolist() for u in crys.basis[chem]],
                            cutoff=cut)
         res['records'] += I.vector_star_oracles(ss, vk)
+        if base is not None:
+            res['records'] += I.covariance_oracle(base, (ss, vk), Q)
+            res['info']['name'] = '%s rotated %g deg about %s' % (task['name'], task['deg'], list(task['axis']))
         res['records'] += I.projection_oracles(c, np.random.default_rng(task['seed']))
         nG, n_, m_, d_ = len(list(crys.G)), ss.Nstates, vk.Nvstars, crys.dim
         # exact-arithmetic operations of the Lean checker: Gram matrices, equivariance/average, group axioms
@@ -375,6 +387,16 @@ def _plan(ctx, for_search=False):
     if not quick:
         for name in ('hcp', 'rumpled'):
             tasks.append(dict(kind='zoo', name=name, N=3, seed=rng.getrandbits(32), lean=False, leancap=0))
+    # rigidly rotated copies: tiny tilts (the construction of the perpendicular vectors compares against fixed Cartesian
+    # reference directions with float thresholds) and generic angles, about several axes; float oracles only
+    rot_bases = ['ortho', 'fcc', 'hcp', 'rumpled', 'sc', 'rect2d-2site', 'tri2d', 'mono'] if quick else list(I.QUICK)
+    angles = [1e-3, 1e-2, 0.1, 1.0] if quick else [1e-3, 3e-3, 1e-2, 3e-2, 0.1, 0.3, 1.0]
+    axes = [(1, 0, 0), (0, 0, 1), (1, 2, 3), (0, 1, 0), (1, 1, 0)]
+    for b, name in enumerate(rot_bases):
+        for a, deg in enumerate(angles + [rng.uniform(2., 88.)] + ([] if quick else [rng.uniform(2., 88.), rng.uniform(1e-3, 0.2)])):
+            ax = axes[(a + b) % len(axes)] if a < len(angles) else tuple(rng.uniform(-1, 1) for _ in range(3))
+            tasks.append(dict(kind='rot', name=name, N=1 if (quick or name in ('hcp', 'rumpled', 'mono-2site', 'triclinic')) else 2,
+                              axis=ax, deg=deg, seed=rng.getrandbits(32), lean=False, leancap=0))
     nrand = 8 if quick else 60
     for t in range(nrand):
         tasks.append(dict(kind='random', name='random', cseed=rng.getrandbits(32), N=1 + (t % 2), seed=rng.getrandbits(32),
@@ -411,7 +433,7 @@ def _run_tasks(ctx, tasks):
         nontrivial = info['vstars'] >= 2 and (info['G'] > 1 or info['nsites'] > 1)
         ctx.case(key, nontrivial=nontrivial,
                  sample={k: info[k] for k in ('name', 'N', 'dim', 'G', 'states', 'stars', 'vstars', 'om1', 'om2', 'OS')})
-        ctx.count('crystal:' + info['name'].split(':')[0] + (':rand' if task['kind'] == 'random' else ''))
+        ctx.count('crystal:' + info['name'].split(':')[0].split(' ')[0] + (':rand' if task['kind'] == 'random' else '') + (':rotated' if task['kind'] == 'rot' else ''))
         ctx.count('N=%d' % info['N'])
         ctx.count('originstates' if info['OS'] else 'no-originstates')
         ctx.count('dim=%d' % info['dim'])
